@@ -24,7 +24,7 @@ TRUSTED = ['numpy uint8/int8 dot products wrap modulo 256; wider integer dtypes 
 ASSUMPTIONS = ['entries of BSF vectors are small non-negative integers (0/1 in all library paths)']
 ANCHOR_FILES = ['panqec/bpauli.py', 'panqec/bsparse.py']
 
-REPRS = ['list', 'uint8', 'int8', 'int64', 'uint64', 'csr']
+REPRS = ['list', 'uint8', 'int8', 'int64', 'uint64', 'csr', 'csr0']
 
 
 def conv(rows, dim, rep):
@@ -34,6 +34,19 @@ def conv(rows, dim, rep):
         return [list(r) for r in rows] if dim == 2 else list(rows[0])
     if rep == 'csr':
         return csr_matrix(np.array(rows, dtype='uint8'))  # csr is always 2-D
+    if rep == 'csr0':
+        # the same matrix as a csr that STORES some of its zeros explicitly and keeps its column
+        # indices unsorted (what sums / products of sparse Paulis followed by `.data %= 2` produce)
+        a = np.array(rows, dtype='uint8')
+        indptr, indices, data = [0], [], []
+        for r in a:
+            cols = list(range(len(r)))[::-1]
+            keep = [c for c in cols if r[c] or c % 3 == 0]
+            indices += keep
+            data += [int(r[c]) for c in keep]
+            indptr.append(len(indices))
+        return csr_matrix((np.array(data, dtype='uint8'), np.array(indices, dtype=int), np.array(indptr)),
+                          shape=a.shape)
     return np.array(data, dtype=rep)
 
 
@@ -53,9 +66,9 @@ def bsprod_case(s: Stream, A, B, da, db, ra, rb, tag):
     from panqec.bpauli import bs_prod
     a = conv(A, da, ra)
     b = conv(B, db, rb)
-    sparse = (ra == 'csr' or rb == 'csr')
-    eda = 2 if ra == 'csr' else da
-    edb = 2 if rb == 'csr' else db
+    sparse = (ra in ('csr', 'csr0') or rb in ('csr', 'csr0'))
+    eda = 2 if ra in ('csr', 'csr0') else da
+    edb = 2 if rb in ('csr', 'csr0') else db
     ans = guarded(lambda: canon_arr(bs_prod(a, b)),
                   {'ValueError': lambda e: 'ERR odd' if 'even length' in str(e) else 'ERR mismatch'})
     op = f"bsprod {model_dtype(ra, rb)} {int(sparse)} {eda} {edb} {stack(A)} {stack(B)}"
@@ -109,8 +122,8 @@ def correspondence(ctx):
             extra = [list(rng.integers(0, 2, 2 * n)) for _ in range(2)]
             A = [a] + [[int(x) for x in r] for r in extra]
             B = [b, [1] * (2 * n), [0] * (2 * n)]
-            for ra, rb in itertools.product(['uint8', 'int8', 'int64', 'csr', 'list'], repeat=2):
-                if not ctx.thorough and rng.random() < 0.6:
+            for ra, rb in itertools.product(['uint8', 'int8', 'int64', 'csr', 'csr0', 'list'], repeat=2):
+                if not ctx.thorough and rng.random() < 0.7:
                     continue
                 bsprod_case(s, A, B, 2, 2, ra, rb, f'overlap={overlap}')
                 bsprod_case(s, A, [b], 2, 1, ra, rb, f'overlap={overlap}')
@@ -229,6 +242,28 @@ def check_case(case):
             if list(map(int, bpauli.int_to_bvector(k, n))) != want:
                 return 'int_to_bvector(bvector_to_int(v)) != v'
             return None
+        if kind == 'syndrome-sequence':
+            from harness import codes as K
+            code = K.build(case['class'], tuple(case['size']))
+            rng = np.random.default_rng(case['seed'])
+            steps = [None] + [tuple(d) for d in case['deforms']]
+            for dname in steps:
+                if dname is not None:
+                    code.deform(dname[0], **dname[1])
+                H = K.dense(code.stabilizer_matrix)
+                for _ in range(3):
+                    e = [int(x) for x in rng.integers(0, 2, 2 * code.n)]
+                    f = [int(x) for x in rng.integers(0, 2, 2 * code.n)]
+                    se = [int(x) for x in code.measure_syndrome(np.array(e, dtype='uint8'))]
+                    if se != [symp_ref(r, e) for r in H]:
+                        return (f'measure_syndrome differs from the symplectic products with the rows of H '
+                                f'after {"deform " + str(dname) if dname else "construction"}')
+                    sf = [int(x) for x in code.measure_syndrome(np.array(f, dtype='uint8'))]
+                    ef = [(a + b) % 2 for a, b in zip(e, f)]
+                    sef = [int(x) for x in code.measure_syndrome(np.array(ef, dtype='uint8'))]
+                    if sef != [(a + b) % 2 for a, b in zip(se, sf)]:
+                        return 'measure_syndrome is not GF(2)-linear'
+            return None
         if kind == 'brank':
             m = np.array(case['matrix'])
             got = bpauli.brank(m)
@@ -285,7 +320,7 @@ def oracle_cases(ctx, deep):
             for p in rng.choice(n, overlap, replace=False):
                 a[p] = 1
                 b[n + p] = 1
-            for ra, rb in itertools.product(['uint8', 'int8', 'int64', 'csr', 'list'], repeat=2):
+            for ra, rb in itertools.product(['uint8', 'int8', 'int64', 'csr', 'csr0', 'list'], repeat=2):
                 cases.append({'kind': 'bsprod', 'A': [a, [1] * (2 * n)], 'B': [b, a], 'adim': 2, 'bdim': 2,
                               'arep': ra, 'brep': rb})
     for n in range(1, 4):
@@ -296,13 +331,23 @@ def oracle_cases(ctx, deep):
     for _ in range(40):
         r, c = int(rng.integers(1, 8)), int(rng.integers(1, 10))
         cases.append({'kind': 'brank', 'matrix': [[int(x) for x in rng.integers(0, 2, c)] for _ in range(r)]})
+    # syndrome measurement on one object across deformations (measure, deform, measure again)
+    from harness import codes as K
+    for cls in (K.CLASSES if deep else ['Toric2DCode', 'RotatedPlanar2DCode', 'Toric3DCode', 'Color488Code',
+                                        'RhombicPlanarCode', 'XCubeCode']):
+        defs = K.deformations(cls)[1:]
+        if not defs:
+            continue
+        size = (K.all_sizes(cls, 2, n_max=80) or K.all_sizes(cls, 3, n_max=80) or K.all_sizes(cls, 4, n_max=120))[-1]
+        cases.append({'kind': 'syndrome-sequence', 'class': cls, 'size': list(size), 'seed': int(rng.integers(0, 10 ** 6)),
+                      'deforms': [[d[0], d[1]] for d in (defs + defs[:1])[:3]]})
     return cases
 
 
 def oracle(ctx, deep=False, broken=None):
     cases = oracle_cases(ctx, deep)
     fails = first_failures(cases, check_case, key=lambda c: {k: c[k] for k in c if k in
-                                                             ('kind', 'arep', 'brep', 'adim', 'bdim')})
+                                                             ('kind', 'arep', 'brep', 'adim', 'bdim', 'class')})
     # symmetric / alternating / bilinear are consequences of equality with the reference form
     return fails, {'evaluations': len(cases)}
 
